@@ -110,4 +110,246 @@ theorem argmin_isSome {α : Type} [LinearOrder α] (L : List α) (h : L ≠ []) 
   | nil => exact absurd rfl h
   | cons x xs => exact ⟨_, rfl⟩
 
+/-! ### alignment (`from_pytorch`) -/
+
+section align
+variable {q : Type}
+
+/-- the first row of every tensor, as stored values -/
+def headsOf (est : List (Name × List (List q))) : List (Name × Val q) :=
+  est.filterMap (fun kt => kt.2.head?.map (fun r => (kt.1, Val.vec r)))
+
+/-- the first row of every tensor, as handed to `add` -/
+def rawHeadsOf (est : List (Name × List (List q))) : List (Name × RawVal q) :=
+  est.filterMap (fun kt => kt.2.head?.map (fun r => (kt.1, RawVal.list (r.map RawElem.num))))
+
+def tailsOf (est : List (Name × List (List q))) : List (Name × List (List q)) :=
+  est.map (fun kt => (kt.1, kt.2.tail))
+
+def colsOf (est : List (Name × List (List q))) : List (Name × List (RawVal q)) :=
+  est.map (fun kt => (kt.1, tensorRows (Tensor.d2 kt.2)))
+
+/-- the per-individual dictionaries `from_pytorch` builds -/
+def alignRows : List String → List (Name × List (List q)) → List (String × List (Name × Val q))
+  | [], _ => []
+  | s :: is, est => (s, headsOf est) :: alignRows is (tailsOf est)
+
+theorem splitHeads_cons (k : Name) (v : RawVal q) (rest : List (RawVal q))
+    (cols : List (Name × List (RawVal q))) :
+    splitHeads ((k, v :: rest) :: cols)
+      = (splitHeads cols).map (fun p => ((k, v) :: p.1, (k, rest) :: p.2)) := by
+  unfold splitHeads
+  rw [List.mapM_cons]
+  cases List.mapM (fun (kc : Name × List (RawVal q)) => match kc.2 with
+      | v :: rest => some ((kc.1, v), (kc.1, rest))
+      | [] => none) cols with
+  | none => rfl
+  | some a => rfl
+
+theorem colsOf_cons (k : Name) (r : List q) (rows : List (List q)) (est : List (Name × List (List q))) :
+    colsOf ((k, r :: rows) :: est)
+      = (k, RawVal.list (r.map RawElem.num) :: tensorRows (Tensor.d2 rows)) :: colsOf est := rfl
+
+theorem rawHeadsOf_cons (k : Name) (r : List q) (rows : List (List q)) (est : List (Name × List (List q))) :
+    rawHeadsOf ((k, r :: rows) :: est) = (k, RawVal.list (r.map RawElem.num)) :: rawHeadsOf est := rfl
+
+theorem headsOf_cons (k : Name) (r : List q) (rows : List (List q)) (est : List (Name × List (List q))) :
+    headsOf ((k, r :: rows) :: est) = (k, Val.vec r) :: headsOf est := rfl
+
+theorem tailsOf_cons (k : Name) (r : List q) (rows : List (List q)) (est : List (Name × List (List q))) :
+    tailsOf ((k, r :: rows) :: est) = (k, rows) :: tailsOf est := rfl
+
+theorem splitHeads_colsOf (est : List (Name × List (List q))) (h : ∀ kt ∈ est, kt.2 ≠ []) :
+    splitHeads (colsOf est) = some (rawHeadsOf est, colsOf (tailsOf est)) := by
+  induction est with
+  | nil => rfl
+  | cons kt est ih =>
+    have ih' := ih (fun kt' hk => h kt' (List.mem_cons_of_mem _ hk))
+    obtain ⟨k, rows⟩ := kt
+    cases rows with
+    | nil => exact absurd rfl (h (k, []) (List.mem_cons_self))
+    | cons r rows =>
+      rw [colsOf_cons, splitHeads_cons, ih', rawHeadsOf_cons, tailsOf_cons]
+      rfl
+
+theorem mapM_elemNum (r : List q) : (r.map RawElem.num).mapM elemNum = some r := by
+  induction r with
+  | nil => rfl
+  | cons x r ih =>
+    rw [List.map_cons, List.mapM_cons, ih]
+    rfl
+
+theorem checkVal_row (r : List q) (hr : r ≠ []) :
+    checkVal (RawVal.list (r.map RawElem.num)) = some (Val.vec r) := by
+  have : (r.map (RawElem.num (q := q))).isEmpty = false := by
+    cases r with
+    | nil => exact absurd rfl hr
+    | cons x r => rfl
+  simp only [checkVal, this, mapM_elemNum]
+  rfl
+
+theorem checkDict_cons (k : Name) (v : RawVal q) (d : List (Name × RawVal q)) :
+    checkDict ((k, v) :: d)
+      = (checkVal v).bind (fun v' => (checkDict d).map (fun vs => (k, v') :: vs)) := by
+  unfold checkDict
+  rw [List.mapM_cons]
+  cases checkVal v with
+  | none => rfl
+  | some v' =>
+    cases List.mapM (fun (kv : Name × RawVal q) => (checkVal kv.2).map (fun v => (kv.1, v))) d with
+    | none => rfl
+    | some vs => rfl
+
+theorem checkDict_rawHeadsOf (est : List (Name × List (List q))) (h : ∀ kt ∈ est, ∀ r ∈ kt.2, r ≠ []) :
+    checkDict (rawHeadsOf est) = some (headsOf est) := by
+  induction est with
+  | nil => rfl
+  | cons kt est ih =>
+    have ih' := ih (fun kt' hk => h kt' (List.mem_cons_of_mem _ hk))
+    obtain ⟨k, rows⟩ := kt
+    cases rows with
+    | nil => exact ih'
+    | cons r rows =>
+      have hr : r ≠ [] := h (k, r :: rows) List.mem_cons_self r List.mem_cons_self
+      rw [rawHeadsOf_cons, checkDict_cons, checkVal_row r hr, headsOf_cons]
+      simp [ih']
+
+theorem shapes_headsOf (w : Name → Nat) (est : List (Name × List (List q)))
+    (h : ∀ kt ∈ est, kt.2 ≠ [] ∧ ∀ r ∈ kt.2, r.length = w kt.1) :
+    (headsOf est).map (fun kv => (kv.1, shapeOf kv.2)) = est.map (fun kt => (kt.1, [w kt.1])) := by
+  induction est with
+  | nil => rfl
+  | cons kt est ih =>
+    have ih' := ih (fun kt' hk => h kt' (List.mem_cons_of_mem _ hk))
+    obtain ⟨k, rows⟩ := kt
+    cases rows with
+    | nil => exact absurd rfl (h (k, []) List.mem_cons_self).1
+    | cons r rows =>
+      have hr : r.length = w k := (h (k, r :: rows) List.mem_cons_self).2 r List.mem_cons_self
+      rw [headsOf_cons, List.map_cons, List.map_cons, ih']
+      simp [shapeOf, hr]
+
+theorem lookup_of_mem_nodupKeys {β : Type} (sh : List (Name × β)) (hn : NodupKeys sh) :
+    ∀ kv ∈ sh, sh.lookup kv.1 = some kv.2 := by
+  induction sh with
+  | nil => intro kv hk; simp at hk
+  | cons a sh ih =>
+    intro kv hk
+    obtain ⟨ak, av⟩ := a
+    obtain ⟨k, v⟩ := kv
+    simp only [NodupKeys, List.map_cons, List.nodup_cons] at hn
+    rw [List.lookup_cons]
+    rcases List.mem_cons.mp hk with e | hk'
+    · cases e; simp
+    · have hne : k ≠ ak := by
+        intro e; apply hn.1; rw [← e]; exact List.mem_map_of_mem (f := (·.1)) hk'
+      have : (k == ak) = false := by simpa using hne
+      simp only [this]
+      exact ih hn.2 (k, v) hk'
+
+theorem dictEq_self {β : Type} [BEq β] [LawfulBEq β] (sh : List (Name × β)) (hn : NodupKeys sh) :
+    dictEq sh sh = true := by
+  simp only [dictEq, beq_self_eq_true, Bool.true_and, List.all_eq_true]
+  intro kv hk
+  simp [lookup_of_mem_nodupKeys sh hn kv hk]
+
+theorem nodupKeys_shapes (w : Name → Nat) (est : List (Name × List (List q))) (hn : NodupKeys est) :
+    NodupKeys (est.map (fun kt => (kt.1, [w kt.1]))) := by
+  simpa [NodupKeys, List.map_map, Function.comp_def] using hn
+
+theorem tailsOf_keys (est : List (Name × List (List q))) :
+    (tailsOf est).map (·.1) = est.map (·.1) := by
+  simp [tailsOf, List.map_map, Function.comp_def]
+
+theorem tailsOf_shapes (w : Name → Nat) (est : List (Name × List (List q))) :
+    (tailsOf est).map (fun kt => (kt.1, [w kt.1])) = est.map (fun kt => (kt.1, [w kt.1])) := by
+  simp [tailsOf, List.map_map, Function.comp_def]
+
+/-- the induction behind `from_pytorch` -/
+theorem fromTorchRows_spec (w : Name → Nat) (is : List String) :
+    ∀ (c : Container q) (est : List (Name × List (List q))),
+      is.Nodup → (∀ s ∈ is, s ∉ c.ids) → NodupKeys est →
+      (∀ kt ∈ est, kt.2.length = is.length ∧ ∀ r ∈ kt.2, r.length = w kt.1 ∧ 0 < w kt.1) →
+      (c.shapes = none ∨ c.shapes = some (est.map (fun kt => (kt.1, [w kt.1])))) →
+      ∃ c', fromTorchRows c (is.map RawId.str) (colsOf est) = .ok c' ∧
+        c'.ids = c.ids ++ is ∧ c'.params = c.params ++ alignRows is est ∧
+        c'.shapes = if is = [] then c.shapes else some (est.map (fun kt => (kt.1, [w kt.1]))) := by
+  induction is with
+  | nil =>
+    intro c est _ _ _ _ _
+    exact ⟨c, by simp [fromTorchRows], by simp, by simp [alignRows], by simp⟩
+  | cons s is ih =>
+    intro c est hnd hnew hn hrows hsh
+    have hne : ∀ kt ∈ est, kt.2 ≠ [] := by
+      intro kt hk e
+      have := (hrows kt hk).1
+      rw [e] at this; simp at this
+    have hrne : ∀ kt ∈ est, ∀ r ∈ kt.2, r ≠ [] := by
+      intro kt hk r hr e
+      have := (hrows kt hk).2 r hr
+      rw [e] at this; simp at this; omega
+    have hshape := shapes_headsOf w est (fun kt hk => ⟨hne kt hk, fun r hr => ((hrows kt hk).2 r hr).1⟩)
+    have hsc : s ∉ c.ids := hnew s List.mem_cons_self
+    -- the container after adding `s`
+    let c1 : Container q :=
+      { ids := c.ids ++ [s], params := c.params ++ [(s, headsOf est)],
+        shapes := some (est.map (fun kt => (kt.1, [w kt.1]))) }
+    have hadd : add c (RawId.str s) (RawParams.dict (rawHeadsOf est)) = .ok c1 := by
+      rcases hsh with h0 | h1
+      · simp [add, hsc, checkDict_rawHeadsOf est hrne, h0, hshape, c1]
+      · have hde := dictEq_self _ (nodupKeys_shapes w est hn)
+        simp [add, hsc, checkDict_rawHeadsOf est hrne, h1, hshape, hde, c1]
+    have hnd' := List.nodup_cons.mp hnd
+    obtain ⟨c', hc', hids, hpar, hshp⟩ := ih c1 (tailsOf est) hnd'.2
+      (by
+        intro t ht
+        simp only [c1, List.mem_append, List.mem_singleton, not_or]
+        refine ⟨hnew t (List.mem_cons_of_mem _ ht), ?_⟩
+        rintro rfl; exact hnd'.1 ht)
+      (by simpa [NodupKeys, tailsOf_keys] using hn)
+      (by
+        intro kt hk
+        simp only [tailsOf, List.mem_map] at hk
+        obtain ⟨kt0, hk0, rfl⟩ := hk
+        have h0 := hrows kt0 hk0
+        refine ⟨by simp [h0.1], ?_⟩
+        intro r hr
+        exact h0.2 r (List.mem_of_mem_tail hr))
+      (by right; simp [c1, tailsOf_shapes])
+    refine ⟨c', ?_, ?_, ?_, ?_⟩
+    · simp only [List.map_cons, fromTorchRows, splitHeads_colsOf est hne, hadd]
+      exact hc'
+    · simp [hids, c1]
+    · simp [hpar, c1, alignRows]
+    · rw [hshp]
+      by_cases he : is = []
+      · simp [he, c1]
+      · simp [he, tailsOf_shapes]
+
+theorem alignRows_keys (is : List String) :
+    ∀ est : List (Name × List (List q)), (alignRows is est).map (·.1) = is := by
+  induction is with
+  | nil => intro est; rfl
+  | cons s is ih => intro est; simp [alignRows, ih]
+
+theorem alignRows_get (is : List String) :
+    ∀ (est : List (Name × List (List q))) (i : Nat) (id : String), is[i]? = some id →
+      (alignRows is est)[i]? =
+        some (id, est.filterMap (fun kt => kt.2[i]?.map (fun r => (kt.1, Val.vec r)))) := by
+  induction is with
+  | nil => intro est i id h; simp at h
+  | cons s is ih =>
+    intro est i id h
+    cases i with
+    | zero =>
+      simp at h; subst h
+      simp [alignRows, headsOf, List.head?_eq_getElem?]
+    | succ i =>
+      simp at h
+      simp only [alignRows, List.getElem?_cons_succ]
+      rw [ih (tailsOf est) i id h]
+      simp [tailsOf, List.filterMap_map]
+
+end align
+
 end LeaspyVerif.Personalize
